@@ -88,6 +88,26 @@ func fnWritesSQL(c *core.Ctx, f *ssa.Function, d int) bool {
 	return w
 }
 
+func c07TxErr(c *core.Ctx) {
+	for _, fn := range storeFns(c, "TX-err", "ProcessBlock", "Reorg") {
+		ruleTxErr(c, "TX-err", fn)
+	}
+}
+
+func c07Stop(c *core.Ctx) {
+	const rule = "C07-stop"
+	for _, s := range haltingSyncers {
+		pi := newProcInfo(c, s.pkg)
+		fn := c.MustFn(rule, s.pkg, "processor", "ProcessBlock")
+		if pi == nil || fn == nil {
+			continue
+		}
+		if !guardObligation(c, rule, pi, fn, s.pkg+".(*processor).ProcessBlock") {
+			c.Undecide(rule, s.pkg+".(*processor).ProcessBlock", fn.Pos(), "ProcessBlock does not access processor data?")
+		}
+	}
+}
+
 func c07TxThrough(c *core.Ctx) {
 	const rule = "TX-through"
 	for _, fn := range storeFns(c, rule, "ProcessBlock", "Reorg") {
@@ -596,6 +616,8 @@ func init() {
 		Rules: []Rule{
 			{ID: "TX-pair", Floor: 6, Run: c07TxPair, Text: "[TX] every path from a successful begin to an exit commits / rolls back / has a deferred rollback; flag cleared only after Commit()==nil; lastgersync.Reorg is a single statement"},
 			{ID: "TX-through", Floor: 19, Run: c07TxThrough, Text: "[TX] every SQL write in the tx scope and its callee cone uses the tx handle"},
+			{ID: "TX-err", Floor: 15, Run: c07TxErr, Text: "[ERR] a failed SQL write in the tx cone always ends the function with that error (duplicate rht rows, extended code 1555, excepted)"},
+			{ID: "C07-stop", Floor: 2, Run: c07Stop, Text: "[DOM] (shared with C14-stop) a halted processor records nothing: ProcessBlock passes the !isHalted() edge before any data access"},
 			{ID: "TX-mem", Floor: 6, Run: c07TxMem, Text: "[TX] frontier writes are dominated by AddRollbackCallback(invalidate to sentinel); sentinel < -1; mismatch rebuilds"},
 			{ID: "TX-frame", Floor: 9, Run: c07TxFrame, Text: "[WHO] computed set of post-construction field writes of the long-lived store objects is within the accounted table"},
 			{ID: "C07-halt-or-retry", Floor: 3, Run: c07HaltOrRetry, Text: "[DOM] ErrInconsistentState leaves ProcessBlock only on the halted edge or after latching halted=true"},
